@@ -335,3 +335,36 @@ pub enum ChangedFileKind {
 }
 
 pub type SourceFileEvent = (SourceEventKind, ChangedFileKind);
+
+/// Visibility-only hook for /verif: the categorisation of ONE watcher event, the notify event
+/// kind given as text (so that a harness does not depend on notify's types).
+#[cfg(isographlabs_isograph_verif)]
+pub mod verif_hooks {
+    use std::path::PathBuf;
+
+    use isograph_config::CompilerConfig;
+    use notify::event::{CreateKind, DataChange, ModifyKind, RemoveKind, RenameMode};
+
+    use super::SourceFileEvent;
+
+    pub fn api_categorize_event(
+        config: &CompilerConfig,
+        kind: &str,
+        paths: &[PathBuf],
+    ) -> Option<SourceFileEvent> {
+        match kind {
+            "create_file" => super::process_create_event(config, CreateKind::File, paths),
+            "modify_data" => {
+                super::process_modify_event(config, ModifyKind::Data(DataChange::Any), paths)
+            }
+            "rename_any" => {
+                super::process_modify_event(config, ModifyKind::Name(RenameMode::Any), paths)
+            }
+            "rename_both" => {
+                super::process_modify_event(config, ModifyKind::Name(RenameMode::Both), paths)
+            }
+            "remove" => super::process_remove_event(config, RemoveKind::Any, paths),
+            _ => None,
+        }
+    }
+}
